@@ -593,6 +593,20 @@ class Interp:
         elif isinstance(t, ast.Subscript):
             o = self.ev(t.value, env)
             idx = self.ev_index(t.slice, env)
+            if isinstance(o, LArr) and isinstance(idx, (LArr, CArr)) and idx.kind == 'bool':
+                # a[mask] op= v  (v scalar)  ==  a = where(mask, a op v, a)   element-wise, in place
+                rhs = self.ev(st.value, env)
+                if not V.is_scalar(rhs):
+                    raise Unsupported('masked augmented assignment with an array value')
+                full = self.binop(st.op, o, rhs)
+                from . import arrays as A_
+                mask = A_.snapshot(A_.to_larr(idx))
+                old_ = A_.snapshot(o)
+                newv = A_.snapshot(full)
+                A_.bshape(o.shape, mask.shape, self.ctx)
+                o.elem = lambda i, mask=mask, old_=old_, newv=newv: V.ite(V.zbool(mask.at(*i)), newv.at(*i), old_.at(*i)) if is_sym(mask.at(*i)) else (newv.at(*i) if mask.at(*i) else old_.at(*i))
+                o.inv = None
+                return
             cur = self.getitem(o, idx)
             rhs = self.ev(st.value, env)
             new = self.binop(st.op, cur, rhs)
